@@ -67,12 +67,16 @@ def run(ctx):
         kind = ctx.rng.choice(["periodic", "logit", "probit", "affine"])
         nsname = ctx.rng.choice(["numpy", "torch", "jax"])
         width = ctx.rng.choice(["float64", "float64", "float32"])
+        if rep in (1, 3):           # always present: the bounded maps in single precision (with a point close to the upper bound, below)
+            kind, width = ("logit" if rep == 1 else "probit"), "float32"
         xp, dt = NS[nsname], nsutil.native_dtype(nsname, width)
         eps_m = nsutil.eps_of(width)
         d = ctx.rng.choice([1, 2, 4])
         n = ctx.rng.choice([1, 3, 16])
         wscale = 10.0 ** ctx.rng.choice([-8, -3, 0, 0, 2, 8] if width == "float64" else [-3, 0, 0, 2, 4])
         off = ctx.rng.choice([0.0, 0.0, 1.0, -1e3, 1e8 if width == "float64" else 1e3]) * (1 if wscale >= 1e-3 else 0)
+        if rep in (1, 3):
+            off = 0.0
         if eps_m * abs(off) / wscale > 1e-4:
             off = 0.0        # an interval of width w at offset c holds about w / (eps |c|) numbers of that width: below ~1e4 nothing can be checked
         lower = np.asarray([off + wscale * ctx.rng.uniform(-1, 0) for _ in range(d)])
@@ -84,6 +88,10 @@ def run(ctx):
         u = rngn.uniform(margin, 1 - margin, size=(n, d))
         if rep % 3 == 0:
             u[0] = margin                       # right at the documented clipping margin
+        if width == "float32" and off == 0.0 and kind in ("logit", "probit") and rep % 2 == 1:
+            # single precision close to the UPPER bound (well outside the clipping margin of 1e-6, where 1 - u still has three digits):
+            # the inverse map's log-Jacobian must come from y, not from the rounded sigmoid(y)
+            u[-1] = 1 - 2e-5
         x = lower + u * w
         case = {"class": kind, "ns": nsname, "dtype": width, "dims": d, "batch": n, "lower": lower.tolist(), "upper": upper.tolist()}
         ctx.count(json.dumps(case, sort_keys=True), True, kind=f"{kind}/{nsname}/{width}")
@@ -341,3 +349,44 @@ def periodic_binary64_tie(ctx):
     ctx.oblig("correspondence:binary64-model-vs-impl:periodic_forward", ok and bad is None,
               f"first differing case (x, lower, upper, implementation, namespace, style): {bad!r}" if bad else (out[-400:] if not ok else ""))
     ctx.extra["periodic_binary64_cases"] = len(rows)
+    # ---------------- the caller's array: a transform of one namespace handed an array of another (emcee hands NumPy coordinates to a
+    # torch transform) computes on a COPY: the input is unchanged afterwards, and a second call on it gives the same answer
+    from aspire import transforms as T_
+    for nsname in ("torch", "jax", "numpy"):
+        xp = NS[nsname]
+        dt = nsutil.native_dtype(nsname, "float64")
+        names = ["w", "b", "m"]
+        bounds = {"b": (-2.0, 3.0), "m": (0.5, 9.0), "w": (1.0, 11.0)}
+        for kind in ("Composite", "Periodic", "Logit"):
+            try:
+                if kind == "Composite":
+                    t = T_.CompositeTransform(parameters=names, periodic_parameters=["w"], prior_bounds=bounds, bounded_to_unbounded=True,
+                                              bounded_transform="logit", affine_transform=True, xp=xp, dtype=dt)
+                    x_in = np.array([[12.5, 0.5, 3.0], [0.25, -1.0, 8.0], [5.0, 2.5, 1.0], [-7.0, 1.0, 4.0]])
+                elif kind == "Periodic":
+                    t = T_.PeriodicTransform(lower=1.0, upper=11.0, xp=xp, dtype=dt)
+                    x_in = np.array([[12.5], [0.25], [5.0], [-7.0]])
+                else:
+                    t = T_.LogitTransform(lower=-2.0, upper=3.0, xp=xp, dtype=dt)
+                    x_in = np.array([[0.5], [-1.0], [2.5], [1.0]])
+                keep = x_in.copy()
+                case = {"transform": kind, "namespace": nsname, "input": "numpy.ndarray", "x": keep.tolist()}
+                ctx.count(("foreign-input", kind, nsname), True, kind="callers-array/" + nsname)
+                if kind == "Composite":
+                    t.fit(x_in)
+                    if not np.array_equal(x_in, keep):
+                        ctx.violation(f"callers-array-overwritten:fit:{nsname}", f"{kind}.fit under {nsname} changed the NumPy array it was given: {x_in.tolist()}", case)
+                        x_in = keep.copy()
+                y1 = np.asarray(nsutil.to_list(t.forward(x_in)[0]), float)
+                changed = not np.array_equal(x_in, keep)
+                y2 = np.asarray(nsutil.to_list(t.forward(x_in)[0]), float)
+                if changed or not np.array_equal(y1, y2):
+                    ctx.violation(f"callers-array-overwritten:forward:{nsname}", f"{kind}.forward under {nsname} changed the NumPy array it was given (now {x_in.tolist()}); "
+                                  f"a second forward on it gives a different image: {not np.array_equal(y1, y2)}", case)
+                z_in = np.array(y1, dtype=float)
+                zkeep = z_in.copy()
+                t.inverse(z_in)
+                if not np.array_equal(z_in, zkeep):
+                    ctx.violation(f"callers-array-overwritten:inverse:{nsname}", f"{kind}.inverse under {nsname} changed the NumPy array it was given", case)
+            except Exception as e:
+                ctx.extra.setdefault("foreign_input_errors", []).append({"transform": kind, "ns": nsname, "error": repr(e)[:200]})
